@@ -105,10 +105,13 @@ def run(tier, seed, replay=None):
         "symbols_per_program_histogram": {str(k): v for k, v in sorted(nsyms.items())},
         "trace_lines_compared": nlines, "symbol_table_failures": len(sym_bad), "trace_mismatches": len(tr_bad),
         "model_vs_impl_mismatches": len(mism),
-        "call_sequence_check": {k: v for k, v in cs.items() if k != "mismatches"},
+        "call_sequence_check": {k: v for k, v in cs.items() if k not in ("mismatches", "symbol_table_mismatches")},
     })
     if cs.get("mismatches"):
         rep.violation("calls", dict(cs["mismatches"][0], seed=seed, clause="(d) trace entries = call sequence"))
+    if cs.get("symbol_table_mismatches"):
+        rep.violation("xsymbols", dict(cs["symbol_table_mismatches"][0], count=len(cs["symbol_table_mismatches"]),
+                                       clause="(a) the table of an xcmp binary lists every procedure of the source once"))
     if sym_bad:
         rec, c = sym_bad[0]
         rep.violation("symbols", {"source_hex": rec["src"].hex(), "source": rec["src"].decode("latin1"), "oracle": c,
